@@ -24,7 +24,7 @@ CHECKS = [
     {
         "id": "C13",
         "technique": "Hypothesis-generated parse histories (op lists) with deep table digests + generated deterministic thread schedules (harness-owned line-level scheduler) + free-running thread stress",
-        "text": "Generated histories of valid / failing / mixed-type parses through four entry points and a long-lived reader (compared with a fresh reader over the same frame: junk before frames, wrong trailers with validation off, polling after the stream ran dry): each result must equal the independent interpreter's expectation and the first parse of the same bytes, and the definition / lookup tables must keep their import-time digest after every step; 2-4 parse jobs are interleaved at source-line granularity following a generated choice list and must give the sequential results; an 8-thread free-running stress with a 1 microsecond switch interval backs this up. Also: fresh child interpreters in which six threads parse and checksum at once before anything else was parsed (lazy initialisation), sibling re-numberings (same masks under another constellation), immediate repeats of failing frames on a long-lived reader, and a hash-built workload with thousands of distinct group-index tuples in the thread stress. The long-lived reader is driven through read(), next(), next(iter(reader)), a kept iterator and for loops left early, with parsing on or off.",
+        "text": "Generated histories of valid / failing / mixed-type parses through four entry points and a long-lived reader (compared with a fresh reader over the same frame: junk before frames, wrong trailers with validation off, polling after the stream ran dry): each result must equal the independent interpreter's expectation and the first parse of the same bytes, and the definition / lookup tables must keep their import-time digest after every step; 2-4 parse jobs are interleaved at source-line granularity following a generated choice list and must give the sequential results; an 8-thread free-running stress with a 1 microsecond switch interval backs this up. Also: fresh child interpreters in which six threads parse and checksum at once before anything else was parsed (lazy initialisation), sibling re-numberings (same masks under another constellation), immediate repeats of failing frames on a long-lived reader, and a hash-built workload with thousands of distinct group-index tuples in the thread stress. The long-lived reader is driven through read(), next(), next(iter(reader)), a kept iterator and for loops left early, with parsing on or off. A second long-lived reader in raise mode is fed a frame cut short, then the complete frame, which must come back as from a fresh reader.",
         "note": "Interleavings finer than a source line and GIL-free parallelism are not explored.",
     },
     {
